@@ -21,3 +21,55 @@ def buildInfoLabels (labels : SMap) : List (String × String) :=
   (labels.map (fun e => (sanitizeLabelName e.k, e.v))).foldr insertPair []
 
 end Eds
+
+namespace Eds
+
+/-- one exported sample: family name, value, label pairs. -/
+structure Sample where
+  family : String
+  value : Int
+  labels : List (String × String)
+  deriving DecidableEq, Repr
+
+def baseLabels (ns name : String) : List (String × String) := [("namespace", ns), ("name", name)]
+
+/-- `generateMetricFamilies()` of controllers/extendeddaemonset/metrics.go applied to one object
+(the `eds_created` timestamp family is left out: seconds since the Unix epoch). -/
+def edsSamples (d : EDS) : List Sample :=
+  let base := baseLabels d.ns d.name
+  let st := d.status
+  [ { family := "eds_labels", value := 1, labels := base ++ buildInfoLabels d.labels },
+    { family := "eds_status_desired", value := st.desired, labels := base },
+    { family := "eds_status_current", value := st.current, labels := base },
+    { family := "eds_status_ready", value := st.ready, labels := base },
+    { family := "eds_status_available", value := st.available, labels := base },
+    { family := "eds_status_uptodate", value := st.upToDate, labels := base },
+    { family := "eds_status_ignored_unresponsive_nodes", value := st.ignored, labels := base },
+    { family := "eds_status_canary_activated", value := if st.canary.isSome then 1 else 0,
+      labels := base ++ [("replicaset", match st.canary with | some c => c.replicaSet | none => "")] },
+    { family := "eds_status_canary_paused",
+      value := if st.canary.isSome && isCondTrue st.conds "Canary-Paused" then 1 else 0,
+      labels := base ++ (match st.canary with
+        | some c => [("replicaset", c.replicaSet)] ++
+            (if isCondTrue st.conds "Canary-Paused" then
+               [("paused_reason", match findCond st.conds "Canary-Paused" with | some x => x.reason | none => "")]
+             else [])
+        | none => []) },
+    { family := "eds_status_canary_node_number",
+      value := match st.canary with | some c => c.nodes.length | none => 0, labels := base },
+    { family := "eds_status_rolling_update_paused", value := if st.state == "RollingUpdate Paused" then 1 else 0, labels := base },
+    { family := "eds_status_rollout_frozen", value := if st.state == "Rollout frozen" then 1 else 0, labels := base } ]
+
+/-- `generateMetricFamilies()` of controllers/extendeddaemonsetreplicaset/metrics.go. -/
+def ersSamples (e : ERS) : List Sample :=
+  let base := baseLabels e.ns e.name
+  let st := e.status
+  [ { family := "ers_labels", value := 1, labels := base ++ buildInfoLabels e.labels },
+    { family := "ers_status_desired", value := st.desired, labels := base },
+    { family := "ers_status_current", value := st.current, labels := base },
+    { family := "ers_status_ready", value := st.ready, labels := base },
+    { family := "ers_status_available", value := st.available, labels := base },
+    { family := "ers_status_ignored_unresponsive_nodes", value := st.ignored, labels := base },
+    { family := "ers_status_canary_failed", value := if isCondTrue st.conds "Canary-Failed" then 1 else 0, labels := base } ]
+
+end Eds
